@@ -134,6 +134,13 @@ theorem C11_setting_names_live_read (w : World) (c : Config) (src : Source) (fue
 is what releases it -/
 theorem C11_names_released_by_clear (c : Config) : (c.clear).1.filenames = [] := rfl
 
+/-- The two scanner actions that open and close files and create and delete buffers — the
+`<INCLUDE>\"` directive action and the shared `<<EOF>>` action — are the catalogued ones in
+the compiled scanner (texts re-read from lib/scanner.c on every run). -/
+theorem C11_actions :
+    Generated.scanActions.getD 27 .unknown = .includeDirective Generated.tokens.error ∧
+    Generated.scanner.eofActionKnown = true := by decide
+
 /-! ### the invariant behind the theorems (exported for inspection) -/
 
 /-- Between any two scanner calls the open streams are exactly the current files of the
